@@ -1,4 +1,4 @@
 SPECIFICATION Spec
-CONSTANTS MaxOrder = 3 MaxKernel = 4 Denom = 2 MaxSum = 6 MarginElseIf = FALSE
+CONSTANTS MaxOrder = 5 MaxKernel = 5 Denom = 2 MaxSum = 6 MarginElseIf = FALSE OnlyN = 99 OnlyF = 99 OnlyQ = 99 Keep = 5
 INVARIANTS Check
 CHECK_DEADLOCK FALSE
